@@ -9,6 +9,8 @@ timer exactly as last reported.
 """
 from __future__ import annotations
 
+import importlib
+
 from ref import at4 as r4
 from ref import at5 as r5
 from sx.values import SymBool, sym_and, sym_implies, sym_not, sym_or
@@ -40,6 +42,8 @@ def instances(tier):
     for g in (4, 5):
         out.append({"kind": "timer_sequence", "gen": g, "call": "timer_sequence", "vary": "config"})
     out += apicmd.sequence_instances(tier)
+    # AT4 zones of one system that differ in turbo support, asked in either order: what one zone supports says nothing about another
+    out.append({"kind": "turbo_mix", "gen": 4, "call": "turbo_mix", "vary": "history"})
     return out
 
 
@@ -49,6 +53,59 @@ def expect_labels(tier):
 
 def _bit(bits, n):
     return ((bits >> n) & 1) == 1
+
+
+def _turbo_mix(ctx, p):
+    from .common import ApiRig, Gen
+    from .console import Installation
+    from ref import at4 as r4
+    A = importlib.import_module("pyairtouch.api")
+    g = Gen(4)
+    inst = Installation.simple(4, n_acs=2, zones_per_ac=2)
+    turbo_zone = ctx.choice("turbo_zone", 4)
+    other = (turbo_zone + 1 + ctx.choice("other_offset", 3)) % 4
+    for n in range(4):
+        inst.zone_status[n] = r4.build_group_status(n, 1, 0, 50, 0, 1 if n == turbo_zone else 0, 22, 0, 0, 0)
+    first = ("query", "command", "none")[ctx.choice("first", 3)]
+    with ApiRig(ctx, g, inst) as rig:
+        rig.start()
+        rig.run(1.0)
+        ctx.check(rig.init_result is True, "refusal_iff_unsupported", detail="handshake failed")
+        con = rig.console
+        zt, zo = rig.zone(turbo_zone), rig.zone(other)
+        res = {}
+
+        async def go():
+            if first == "query":
+                res["first"] = [s.name for s in zt.supported_power_states]
+            elif first == "command":
+                try:
+                    await zt.set_power(A.ZonePowerState.TURBO)
+                    res["first"] = "ok"
+                except Exception as e:  # noqa: BLE001
+                    res["first"] = type(e).__name__
+            res["n0"] = len(con.requests)
+            try:
+                await zo.set_power(A.ZonePowerState.TURBO)
+                res["second"] = "ok"
+            except ValueError:
+                res["second"] = "ValueError"
+            except Exception as e:  # noqa: BLE001
+                res["second"] = type(e).__name__
+
+        rig.spawn(go())
+        rig.run(2.5)
+        detail = {"turbo_zone": turbo_zone, "other": other, "first": first, "results": {k: str(v) for k, v in res.items()}}
+        if first == "command":
+            ctx.check(res.get("first") == "ok", "refusal_iff_unsupported", detail=detail)
+        if first == "query":
+            ctx.check("TURBO" in (res.get("first") or []), "refusal_iff_unsupported", detail=detail)
+        ctx.check(res.get("second") == "ValueError", "refusal_iff_unsupported", detail=dict(detail, why="TURBO accepted for a zone the console reports without turbo support"))
+        ctx.check(len(con.requests) == res.get("n0"), "refused_writes_nothing", detail=dict(detail, frames=len(con.requests) - res.get("n0", 0)))
+        ctx.check("TURBO" not in [s.name for s in zo.supported_power_states] and "TURBO" in [s.name for s in zt.supported_power_states], "refusal_iff_unsupported", detail=detail)
+        ctx.check(not rig.task_failures(), "refused_writes_nothing", detail="unhandled exception")
+    for lab in expect_labels("quick"):
+        ctx.reach(lab)
 
 
 def _timer_sequence(ctx, p):
@@ -125,6 +182,8 @@ def _timer_sequence(ctx, p):
 
 
 def run(ctx, p):
+    if p.get("kind") == "turbo_mix":
+        return _turbo_mix(ctx, p)
     if p.get("kind") == "timer_sequence":
         return _timer_sequence(ctx, p)
     if p.get("kind") == "call_sequence":
